@@ -21,7 +21,9 @@ import (
 
 	"github.com/gnolang/gno/tm2/pkg/std"
 
+	"verifharness/internal/audit"
 	"verifharness/internal/chainsim"
+	"verifharness/internal/monitors"
 	"verifharness/internal/hist"
 	"verifharness/internal/vf"
 )
@@ -30,7 +32,7 @@ func init() {
 	vf.Register(&vf.Check{
 		ID:    "C10",
 		Level: "exploration",
-		Rule: "cases = (a) every tx of generated histories incl. a low-block-gas scenario, each executed warm and cold; (b) hostile MsgRun programs = family × size; " +
+		Rule: "cases = (a) every tx of generated histories incl. a low-block-gas scenario, each executed warm and cold; (b) hostile MsgRun programs = family × size; (c) engineered txs that write (coins, realm state) and then run out of gas, one per block: committed state before/after may differ by the fee only; " +
 			"non-trivial = the tx ran out of gas, hit the block gas limit, or is a hostile program; distinct by (history seed, block, index) or (family, size)",
 		Run: run,
 	})
@@ -68,6 +70,7 @@ func run(c *vf.Ctx) {
 		}
 	}
 	jobs = append(jobs, func(rng *rand.Rand) { hostile(c, rng) })
+	jobs = append(jobs, func(rng *rand.Rand) { oogEffects(c, rng) })
 	c.Parallel(len(jobs), 6, 2500, func(i int, rng *rand.Rand) { jobs[i](rng) })
 	c.Assume("clause (i) is read as: a successful tx never reports more gas than it asked for, and a tx that reports more has failed with out-of-gas (the gas meter records the charge that crossed the limit, so an out-of-gas tx reports slightly more than GasWanted)")
 	c.Assume("block-gas bookkeeping is checked through a lower bound of the block meter (ante-rejected txs also consume block gas that is not reported)")
@@ -294,4 +297,135 @@ func clip(s string) string {
 		return s[:240] + "…"
 	}
 	return s
+}
+
+// oogEffects: one engineered transaction per block that does writes (coin
+// transfers, realm state, object creation) and then runs out of gas. After
+// the block the committed state must differ from the state before it only by
+// the fee: payer -fee, one collector +fee, nothing else.
+func oogEffects(c *vf.Ctx, rng *rand.Rand) {
+	ch := start(0)
+	defer ch.Close()
+	n := c.N(30, 200)
+	users := hist.Users
+	// some ordinary traffic first, so that accounts and realm objects exist
+	for i := 0; i < 6; i++ {
+		u := ch.Acc(users[i%len(users)])
+		ch.OneTx([]std.Msg{hist.Resolve(ch, u, hist.MsgSpec{Kind: "call", Pkg: hist.StorePath, Func: "Push", Args: []string{"w"}})}, chainsim.Fee(60_000_000, 1_000_000), u)
+	}
+	families := []string{"call-with-send", "bank-send-then-burn", "run-pay-then-loop", "grow-then-burn", "mint-then-burn", "send-to-self-realm-then-burn"}
+	for k := 0; k < n; k++ {
+		fam := families[k%len(families)]
+		signer := users[rng.IntN(len(users))]
+		other := users[(rng.IntN(len(users)-1)+1+indexOf(users, signer))%len(users)]
+		fee := int64(1_000_000 + rng.IntN(500_000))
+		amt := int64(1 + rng.IntN(2_000_000))
+		burn := hist.MsgSpec{Kind: "call", Pkg: hist.StorePath, Func: "Burn", Args: []string{fmt.Sprint(100000 + rng.IntN(100000))}}
+		tx := hist.TxSpec{Signer: signer, Fee: fee, Label: "oog:" + fam, Gas: int64(4_000_000 + rng.IntN(6_000_000))}
+		switch fam {
+		case "call-with-send":
+			b := burn
+			b.Send = amt
+			tx.Msgs = []hist.MsgSpec{b}
+		case "bank-send-then-burn":
+			tx.Msgs = []hist.MsgSpec{{Kind: "send", To: other, Amount: amt}, burn}
+		case "run-pay-then-loop":
+			tx.Msgs = []hist.MsgSpec{{Kind: "run", Send: amt, Body: fmt.Sprintf("package main\n\nimport (\n\t\"gno.land/r/verif/store\"\n\t\"gno.land/r/verif/peer\"\n)\n\nfunc main(cur realm) {\n\tpeer.Pay(cross(cur), %q, %d)\n\tstore.Push(cross(cur), \"oog\")\n\tfor {\n\t}\n}\n", ch.Acc(other).Addr.String(), 1+rng.IntN(4000))}}
+			tx.Gas = int64(12_000_000 + rng.IntN(10_000_000))
+		case "grow-then-burn":
+			tx.Msgs = []hist.MsgSpec{{Kind: "call", Pkg: hist.StorePath, Func: "BigGrow", Args: []string{fmt.Sprint(5 + rng.IntN(20))}, Send: amt}, burn}
+			tx.Gas = int64(8_000_000 + rng.IntN(8_000_000))
+		case "mint-then-burn":
+			tx.Msgs = []hist.MsgSpec{{Kind: "call", Pkg: hist.PeerPath, Func: "Mint", Args: []string{"@" + signer, "tok", fmt.Sprint(1 + rng.IntN(500))}}, {Kind: "send", To: other, Amount: amt}, burn}
+			tx.Gas = int64(8_000_000 + rng.IntN(8_000_000))
+		case "send-to-self-realm-then-burn":
+			tx.Msgs = []hist.MsgSpec{{Kind: "send", To: other, Amount: amt}, {Kind: "send", To: signer, Amount: amt / 2}, burn}
+		}
+		st0, _, err := audit.Snapshot(ch.DB, 0)
+		if err != nil {
+			panic(err)
+		}
+		ch.BeginBlock()
+		tr := hist.PlayTx(ch, tx)
+		if chainsim.AntePassed(tr) {
+			ch.Acc(signer).Seq++
+		}
+		ch.EndBlockCommit()
+		st1, _, err := audit.Snapshot(ch.DB, 0)
+		if err != nil {
+			panic(err)
+		}
+		c.Case(fmt.Sprintf("oog-effects/%s/%d", fam, k), isOOG(tr))
+		if !isOOG(tr) {
+			c.Count("oog_effects_tx_not_out_of_gas:"+fam, 1)
+			continue
+		}
+		c.Count("oog_effects_checked:"+fam, 1)
+		c.Count("oog_effects_checked", 1)
+		w := map[string]any{"family": fam, "tx": tx, "gas_used": tr.Res.GasUsed, "gas_wanted": tr.Res.GasWanted, "error": clip(tr.ErrString)}
+		payer := ch.Acc(signer).Addr.String()
+		tier := map[string]bool{"ugnot": true}
+		l0, l1 := monitors.ReadLedger(st0.Main, tier), monitors.ReadLedger(st1.Main, tier)
+		addrs := map[string]bool{}
+		for a := range l0.Balances {
+			addrs[a] = true
+		}
+		for a := range l1.Balances {
+			addrs[a] = true
+		}
+		var gainers []string
+		bad := false
+		for a := range addrs {
+			denoms := map[string]bool{}
+			for d := range l0.Balances[a] {
+				denoms[d] = true
+			}
+			for d := range l1.Balances[a] {
+				denoms[d] = true
+			}
+			for d := range denoms {
+				delta := l1.Balances[a][d] - l0.Balances[a][d]
+				switch {
+				case delta == 0:
+				case a == payer && d == "ugnot" && delta == -fee:
+				case a == payer:
+					bad = true
+					c.Violation("out-of-gas-tx-left-effects:payer-balance:"+fam, w, "family %s: the payer's %s balance changed by %d in an out-of-gas tx whose fee is %d (message effects must be discarded, the fee paid)", fam, d, delta, fee)
+				case d == "ugnot" && delta == fee:
+					gainers = append(gainers, a)
+				default:
+					bad = true
+					c.Violation("out-of-gas-tx-left-effects:other-balance:"+fam, w, "family %s: %s of %s changed by %d in an out-of-gas tx (fee %d)", fam, d, a, delta, fee)
+				}
+			}
+		}
+		if !bad && len(gainers) != 1 {
+			c.Violation("out-of-gas-tx-left-effects:fee-not-collected-once:"+fam, w, "family %s: %d addresses gained exactly the fee %d", fam, len(gainers), fee)
+		}
+		for d, s := range l1.Supply {
+			if l0.Supply[d] != s {
+				c.Violation("out-of-gas-tx-left-effects:supply:"+fam, w, "family %s: supply of %s changed from %d to %d in an out-of-gas tx", fam, d, l0.Supply[d], s)
+			}
+		}
+		if d := audit.DiffKV(st0.Base, st1.Base); !d.Empty() {
+			c.Violation("out-of-gas-tx-left-effects:object-store:"+fam, w, "family %s: %d object-store keys changed in an out-of-gas tx, e.g. %q", fam, len(d.All()), d.All()[0])
+		}
+		for _, key := range audit.DiffKV(st0.Main, st1.Main).All() {
+			switch cl := audit.KeyClass(key); cl {
+			case "account", "gasprice":
+			default:
+				c.Violation("out-of-gas-tx-left-effects:main-store-"+strings.SplitN(cl, ":", 2)[0]+":"+fam, w, "family %s: main-store key %q (%s) changed in an out-of-gas tx", fam, key, cl)
+			}
+		}
+	}
+	c.RequireCounter("oog_effects_checked", int64(n/2))
+}
+
+func indexOf(xs []string, x string) int {
+	for i, y := range xs {
+		if y == x {
+			return i
+		}
+	}
+	return 0
 }
